@@ -521,6 +521,8 @@ class Normalizer:
             return self.nf(a[0])
         if op == "zeros":
             return ZERO
+        if op == "full" and isinstance(a[0], Term) and a[0].op == "const" and (a[0].args[0] is False or a[0].args[0] == 0) and a[0].args[0] is not None and not isinstance(a[0].args[0], str):
+            return ZERO  # np.full(n, 0 / False) == np.zeros(n)
         if op == "eye":
             return P_atom(EYE)
         if op == "dg":
@@ -588,6 +590,15 @@ class Normalizer:
             return P_atom(A("store", wrap(self.nf(base)), fi, wrap(self.nf(val))))
         if op == "unk":
             return P_atom(A("unk", a[0], a[1]))
+        if op == "count" and len(a) == 1 and isinstance(a[0], Term) and a[0].op in ("gt", "lt", "ge", "le") and len(a[0].args) == 2:
+            # singular values are sorted in decreasing order:  #{ s[:n] > c } = min(n, #{ s > c })
+            c = a[0]
+            big, small = (c.args[0], c.args[1]) if c.op in ("gt", "ge") else (c.args[1], c.args[0])
+            if isinstance(big, Term) and big.op == "getitem" and isinstance(big.args[0], Term) and big.args[0].op in ("svd_S", "svds_S", "rsvd_S") and isinstance(big.args[1], Term) and big.args[1].op == "slice":
+                lo, hi, step = big.args[1].args
+                if lo.op == "const" and lo.args[0] in (None, 0) and step.op == "const" and step.args[0] in (None, 1) and not (hi.op == "const" and hi.args[0] is None):
+                    inner = Term("count", Term(c.op if c.op in ("gt", "ge") else c.op, *( (big.args[0], small) if c.op in ("gt", "ge") else (small, big.args[0]) )))
+                    return self.nf(Term("min", hi, inner))
         if op in ("gt", "ge") and len(a) == 2:
             # a > b  ==  b < a
             return P_atom(A("lt" if op == "gt" else "le", self.freeze(a[1]), self.freeze(a[0])))
